@@ -93,6 +93,8 @@ func wideWitnessList(u *xuniverse) []wideWitness {
 		{"catalog:connect-queries:instance-stops-being-connect:extinction-index-read-while-service-exists", []entry{
 			wReg("n3", "", "", wSvc("db", "db", 8001)), wDereg("n3"), // some service went extinct earlier
 			wReg("n1", "", "", native("web", "web")), wReg("n1", "", "", wSvc("web", "web", 8000))}},
+		{"usage:service-usage:node-count-change-outside-service-instances-index", []entry{
+			wReg("n1", "", "", wSvc("web", "web", 8000)), wReg("n2", "", "", nil)}}, // a node without instances: Nodes 1 -> 2
 		{"peering:exported-services-for-peer:index-0-when-peering-absent", []entry{
 			{data: encProto(structs.PeeringWriteType, &pbpeering.PeeringWriteRequest{Peering: &pbpeering.Peering{ID: u.peerIDs[2], Name: u.peerNames[2], State: pbpeering.PeeringState_ACTIVE}}),
 				kind: "peering-write", desc: "peering-write peer3 ACTIVE"},
